@@ -182,7 +182,7 @@ def run_property(prop, tier, seed, replay_path, t0):
                     try:
                         c, i, m = runner.run_suite(stage, suite, sseed, n, workdir, extra)
                     except runner.HarnessCrash as hc:
-                        problems.append(dict(what='the harness process crashed in suite %s (seed %d): a panic escaped inside the implementation' % (suite, sseed),
+                        problems.append(dict(what='the harness process ended abnormally in suite %s (seed %d): a panic escaped inside the implementation, or a call into it did not return' % (suite, sseed),
                                              detail=hc.out[-3000:]))
                         continue
                     except RuntimeError as ex:
